@@ -717,6 +717,18 @@ func registerSync(e *Engine) {
 		}
 		return nil
 	})
+	// atomic.Value holds its interface in field 0
+	e.on("(*sync/atomic.Value).Load", func(fr *Frame, a []Value) Value { return (*a[0].(*Value)).(Struct)[0] })
+	e.on("(*sync/atomic.Value).Store", func(fr *Frame, a []Value) Value {
+		(*a[0].(*Value)).(Struct)[0] = a[1]
+		return nil
+	})
+	e.on("(*sync/atomic.Value).Swap", func(fr *Frame, a []Value) Value {
+		s := (*a[0].(*Value)).(Struct)
+		old := s[0]
+		s[0] = a[1]
+		return old
+	})
 	// atomics: plain loads and stores (tasks switch only at blocking points)
 	for _, ty := range []string{"Int32", "Int64", "Uint32", "Uint64", "Uintptr", "Pointer"} {
 		ty := ty
@@ -957,6 +969,7 @@ func registerMisc(e *Engine) {
 type reModel struct {
 	pat string
 	re  *regexp.Regexp
+	pi  *progInfo
 }
 
 func (p *Path) reOf(v Value) *reModel {
@@ -1071,8 +1084,43 @@ func registerStrings(e *Engine) {
 			return nil, false
 		})
 	}
-	c1("strings.ToLower", strings.ToLower)
-	c1("strings.ToUpper", strings.ToUpper)
+	caseMap := func(name string, native func(string) string, lo, hi, delta int64) {
+		e.onMaybe(name, func(fr *Frame, a []Value) (Value, bool) {
+			s := fr.p.conc(a[0].(Str))
+			if c, ok := s.Concrete(); ok {
+				return CStr(native(c)), true
+			}
+			var bl builder
+			for _, g := range s.Segs {
+				switch {
+				case g.A != nil:
+					bl.addSeg(g) // tokens are case-stable by assumption (hex digests are lower case)
+				case g.B != nil:
+					fr.p.assumeASCII(g.B)
+					nb := smt.Ite(smt.And(smt.Le(smt.I(lo), g.B), smt.Le(g.B, smt.I(hi))), smt.Add(g.B, smt.I(delta)), g.B)
+					if d := getByteDom(g.B); d != nil && nb != g.B {
+						var nd [128]bool
+						for c := int64(0); c < 128; c++ {
+							if d[c] {
+								if c >= lo && c <= hi {
+									nd[c+delta] = true
+								} else {
+									nd[c] = true
+								}
+							}
+						}
+						setByteDom(nb, &nd)
+					}
+					bl.addByte(nb)
+				default:
+					bl.addSeg(Seg{S: native(g.S)})
+				}
+			}
+			return bl.str(), true
+		})
+	}
+	caseMap("strings.ToLower", strings.ToLower, 'A', 'Z', 32)
+	caseMap("strings.ToUpper", strings.ToUpper, 'a', 'z', -32)
 	c1("strings.TrimSpace", strings.TrimSpace)
 	c1("net/textproto.CanonicalMIMEHeaderKey", canonicalHeader)
 	c1("net/http.CanonicalHeaderKey", canonicalHeader)
